@@ -14,8 +14,7 @@
 (*   WellFormedProg  real program: scopes balanced, every jump target / macro / slot range is *)
 (*                   the end of the element that owns it                                      *)
 (*   Terminates      the interpreter stopped within the step budget                           *)
-(*   Completes       no exception escaped expand()  (RepeatOverMapping: the one class of      *)
-(*                   templates where TALVM itself predicts the escaping KeyError)             *)
+(*   Completes       no exception escaped expand()                                            *)
 (*   Refines         the document is the one TALSem (Appendix E.4) prescribes                 *)
 (* Design level (DRIFT): the real program equals TALCompile's, every opcode event is the      *)
 (* step TALVM takes, and TALVM's output is the document.                                      *)
@@ -79,8 +78,6 @@ Judge17(f) ==
     IF ~TI.compiled THEN "Compiles"
     ELSE IF ~WellFormedProg(TI.prog, RealSym, TI.macros) THEN "WellFormedProg"
     ELSE IF f.raised = "StepBudget" THEN "Terminates"
-    \* the recorded defect: tal:repeat over a non-empty mapping (the named step RepeatOverMapping of TALVM)
-    ELSE IF f.raised = "KeyError" /\ ~drifted /\ ~Halted(st) /\ ModelStep(st).err = "KeyError" THEN "RepeatOverMapping"
     ELSE IF f.raised # "" THEN "Completes"
     ELSE IF f.doc # RefDoc /\ f.cdoc # RefDoc THEN "Refines"
     ELSE "ok"
